@@ -152,7 +152,7 @@ def _one(case):
 
 def run(tier):
   ck = Check('C12', tier)
-  ck.prove('props/C12.v', gen_targets=searchfam.GEN_TARGETS_EXH)
+  ck.prove('props/C12.v', gen_targets=searchfam.GEN_TARGETS_ALL)
   n = 100 if tier == 'quick' else 1500
   cases = []
   for i in range(n):
